@@ -33,6 +33,20 @@ ASSUME = ['TLC results are exhaustive only within the stated constants',
 COPY_INVARIANTS = ['CopyFaithful', 'CopyKeepsKinds', 'CopyRestoresDefined']
 
 
+def tlc_run(*a, **kw):
+    """zv.tlc.run with a bounded heap (many TLC runs of this check share the machine with other checks); a run that
+    the kernel killed (exit -9: memory pressure) is repeated once"""
+    import time
+    kw.setdefault('heap', '3g')
+    try:
+        return tlc.run(*a, **kw)
+    except tlc.TLCError as ex:
+        if '(exit -9)' not in str(ex) and '(exit 137)' not in str(ex):
+            raise
+        time.sleep(5)
+        return tlc.run(*a, **kw)
+
+
 # ----------------------------------------------------------------------------------------------------
 # (a) copy
 
@@ -40,7 +54,7 @@ def copy_mc(ctx, name, c, next_, timeout=900):
     """-> TLCResult (counted by the caller: this runs in a helper thread)"""
     cfg = os.path.join(ctx.scratch, name + '.cfg')
     tlc.write_cfg(cfg, constants=sd.tla_consts(c), next_=next_, invariants=COPY_INVARIANTS + ['TidsStrictlyIncrease'], view='View')
-    r = tlc.run('MCZRecoverCopy', cfg, workers=6, timeout=timeout)
+    r = tlc_run('MCZRecoverCopy', cfg, workers=6, timeout=timeout)
     if not r.ok:
         raise tlc.TLCError('MCZRecoverCopy/%s: unexpected violation of %s\n%s' % (name, r.violation, r.output[-3000:]))
     return r
@@ -54,7 +68,7 @@ def copy_simulate(ctx, name, c, num, depth, seed, next_):
     tlc.write_cfg(cfg, constants=sd.tla_consts(c), next_=next_, invariants=COPY_INVARIANTS)
     outdir = os.path.join(wd, 'out')
     os.makedirs(outdir, exist_ok=True)
-    r = tlc.run('MCZRecoverCopy', cfg, workdir=wd, simulate='file=%s/tr,num=%d' % (outdir, num), depth=depth,
+    r = tlc_run('MCZRecoverCopy', cfg, workdir=wd, simulate='file=%s/tr,num=%d' % (outdir, num), depth=depth,
                 seed=seed, workers=1, timeout=900)
     if not r.ok:
         raise tlc.TLCError('simulation %s: %s\n%s' % (name, r.violation, r.output[-2000:]))
@@ -358,7 +372,7 @@ def validate_runs(ctx, name, files, runs):
         json.dump({'files': files, 'runs': runs}, f)
     cfg = os.path.join(wd, 'trace.cfg')
     tlc.write_cfg(cfg, constants=dict(TOOL_REAL, Files='{}'), init='TrInit', next_='TrNext')
-    r = tlc.run('ZRecoverTrace', cfg, workdir=wd, workers=2, timeout=1500, env={'TRACE_FILE': tf})
+    r = tlc_run('ZRecoverTrace', cfg, workdir=wd, workers=2, timeout=1500, env={'TRACE_FILE': tf})
     if not r.ok:
         raise tlc.TLCError('trace validation %s: %s\n%s' % (name, r.violation, r.output[-3000:]))
     verdicts = {}
